@@ -220,7 +220,6 @@ func run(c *fw.Ctx) {
 			c.Sample(map[string]interface{}{"holders": sp.Holders, "bound": sp.Bound})
 		}
 	}
-	c.R.Programs = int64(len(ps)) / int64(maxi(c.Shards, 1))
 }
 
 func maxi(a, b int) int {
